@@ -918,6 +918,88 @@ func (k *kase) edits() {
 	}
 }
 
+// replacePayload: the innermost message is looked up (anything a lookup might remember is now
+// remembered), then the payload carried by level lv is replaced by another message with
+// UpdateOption(OptRelayMessage(..)), and the innermost message is looked up again - through
+// GetInnerMessage, GetTransactionID, level-by-level decapsulation and after a wire trip. All four
+// must name the new message: "the innermost message of any relay chain is found whatever its depth".
+func (k *kase) replacePayload() {
+	depth := k.model.Depth()
+	for lv := 0; lv < depth; lv++ {
+		lv := lv
+		newXID := [3]byte{0xab, 0xcd, byte(lv)}
+		want := k.model.Clone()
+		want.Levels = want.Levels[lv:]
+		want.Inner = v6chain.Inner{Type: 7, XID: newXID}
+		body := lazy(func() string {
+			return fmt.Sprintf("\t_, _ = d.GetInnerMessage() // first lookup\n\tlv := d.(*dhcpv6.RelayMessage)\n\tfor i := 0; i < %d; i++ { // down to level %d (0 = innermost)\n\t\tlv = lv.Options.RelayMessage().(*dhcpv6.RelayMessage)\n\t}\n"+
+				"\tlv.UpdateOption(dhcpv6.OptRelayMessage(&dhcpv6.Message{MessageType: dhcpv6.MessageTypeReply, TransactionID: dhcpv6.TransactionID{0xab, 0xcd, %d}}))\n"+
+				"\tm, err := d.GetInnerMessage()\n\tif err != nil || m.TransactionID != (dhcpv6.TransactionID{0xab, 0xcd, %d}) {\n\t\tt.Fatalf(\"innermost message after the payload was replaced: %%v err=%%v\", m, err)\n\t}\n",
+				depth-1-lv, lv, lv, lv)
+		})
+		k.ck.nEdits.Add(1)
+		var w dhcpv6.DHCPv6
+		var err error
+		var raw2 []byte
+		var in1 *dhcpv6.Message
+		var xid1 dhcpv6.TransactionID
+		var err1, errx error
+		var viaDecap dhcpv6.DHCPv6
+		if pv, st := fw.Safe(func() {
+			w, err = dhcpv6.FromBytes(append([]byte{}, k.raw...))
+			if err != nil {
+				return
+			}
+			_, _ = w.GetInnerMessage()
+			_, _ = dhcpv6.GetTransactionID(w)
+			_ = w.Summary()
+			r := levelAt(w, depth, lv)
+			if r == nil {
+				err = fmt.Errorf("level not reachable")
+				return
+			}
+			r.UpdateOption(dhcpv6.OptRelayMessage(&dhcpv6.Message{MessageType: dhcpv6.MessageTypeReply, TransactionID: dhcpv6.TransactionID(newXID)}))
+			in1, err1 = w.GetInnerMessage()
+			xid1, errx = dhcpv6.GetTransactionID(w)
+			viaDecap = w
+			for i := 0; i < depth-lv && viaDecap != nil; i++ {
+				viaDecap, _ = dhcpv6.DecapsulateRelay(viaDecap)
+			}
+			raw2 = w.ToBytes()
+		}); pv != nil {
+			k.panicked("relay-chain|payload-replaced", pv, st, body)
+			continue
+		}
+		if err != nil {
+			continue
+		}
+		if err1 != nil || in1 == nil || [3]byte(in1.TransactionID) != newXID || in1.MessageType != dhcpv6.MessageTypeReply {
+			k.fail("relay-chain|payload-replaced|GetInnerMessage-names-the-old-message", fmt.Sprintf("GetInnerMessage() = %v, err=%v", in1, err1), fmt.Sprintf("the REPLY with transaction id %x now carried by level %d", newXID, lv),
+				"after the payload of a level was replaced the innermost message of the chain is the new one", body)
+			continue
+		}
+		if errx != nil || [3]byte(xid1) != newXID {
+			k.fail("relay-chain|payload-replaced|GetTransactionID-names-the-old-message", fmt.Sprintf("GetTransactionID() = %x, err=%v", xid1[:], errx), fmt.Sprintf("%x", newXID),
+				"after the payload of a level was replaced the chain's transaction id is the new message's", body)
+			continue
+		}
+		if m, ok := viaDecap.(*dhcpv6.Message); !ok || [3]byte(m.TransactionID) != newXID {
+			k.fail("relay-chain|payload-replaced|decapsulation-names-the-old-message", fmt.Sprintf("decapsulating %d times gives %v", depth-lv, viaDecap), fmt.Sprintf("the REPLY with transaction id %x", newXID),
+				"level-by-level decapsulation must reach the new innermost message", body)
+			continue
+		}
+		dec, derr := v6chain.Decode(raw2)
+		if derr != nil {
+			k.fail("relay-chain|payload-replaced|undecodable", derr.Error()+" in "+fw.HexShort(raw2), fw.HexShort(want.Encode()), "the chain with a replaced payload does not serialise to a well-formed relay chain", body)
+			continue
+		}
+		if f, det := v6chain.Diff(dec, want); f != "" {
+			k.fail("relay-chain|payload-replaced|wrong-on-wire|"+f, det+"; bytes "+fw.HexShort(raw2), fw.HexShort(want.Encode()),
+				"the serialised chain carries the levels above the replaced payload unchanged and the new message innermost", body)
+		}
+	}
+}
+
 // runChain is one (shape, type pattern, inner message) case: as built and after
 // the wire trip.
 func (ck *checker) runChain(order int64, sp spec) {
@@ -935,6 +1017,7 @@ func (ck *checker) runChain(order int64, sp spec) {
 		// and with every option (the clause does not look at types or inner options)
 		if kw.observe(w) && ((sp.pat == 0 && sp.depth() <= ck.editAllDepth) || sp.subset == 0 || sp.subset == nSubsets-1) {
 			kw.edits()
+			kw.replacePayload()
 		}
 	}
 }
